@@ -25,6 +25,10 @@ CHECKS.update({
  "C15": ("exploration", "E3", "bounded-exhaustive enumeration: every entry with 0-2 (subset: 3) attributes whose value lists are all sequences of length 0..3 over valid/invalid UTF-8 values, built by the independent encoder (4 length forms), parsed by lber, through SearchEntry::construct; oracle: DN, exactly-one-map, text iff all UTF-8 (in order), binary multiset otherwise", "6 C15", BE_NOTE),
  "C20": ("exploration", "E3", "bounded-exhaustive enumeration: full product of base DNs x attribute lists x scope words x filters x extension lists x trailing-? choice, formatted by the independent RFC 4516 formatter; oracle: components and defaults, the three error classes, unknown non-critical extensions ignored", "6 C20", BE_NOTE),
 })
+CHECKS.update({
+ "C03": ("exploration", "E3", "bounded-exhaustive enumeration: every response type x every result code 0..122/4096/2^31-1, and every type x matched x text x referral x control list, encoded by the independent encoder minimally and with every length field in the forms 81/82/83/84 (one at a time, all at once, and every combination for small messages), decoded by the crate's codec and result converter and compared field by field; success/non_error/equal helpers for every rc 0..255; every operation kind additionally through a pending real operation over the in-memory transport", "6 C03", BE_NOTE),
+ "C06": ("model_checking", "E3+E1", "exhaustive enumeration of read partitions: one real codec instance per stream fed every partition of short streams (all 2^(L-1) for L<=18, 23 thorough), every partition into <=3 chunks of longer ones, byte-at-a-time, cuts around every message and read-buffer boundary incl. a 9000-byte message; plus explicit-state search (stateright) over byte-level delivery through the real Framed and driver; oracle: exactly the messages wholly received are surfaced, in order, and exactly their bytes are consumed", "6 C06", BE_NOTE + "; " + E1_NOTE),
+})
 NA = {}
 import os
 props=[json.loads(l) for l in open('/verif/properties.jsonl')]
